@@ -44,6 +44,24 @@ Definition refuted_check (x : string * Z * Z) : bool :=
 
 Definition valid_check (c : band_cfg) (dr off : Z) : bool := negb (rx1_args_invalid dr off).
 
+(* an accepted uplink data-rate is a data-rate of the band *)
+Definition uplink_dr_check (c : band_cfg) (dr off : Z) : bool :=
+  rx1_uplink_dr_rule (c_tab c) dr (get_rx1_dr c dr off).
+
+(* an accepted offset is one the region defines - except the recorded cells *)
+Definition offset_cell_known (x : string * Z * Z) : bool := existsb (cell_eqb x) c12_known_offset_cells.
+Definition offset_check (c : band_cfg) (dr off : Z) : bool :=
+  match region_of (c_name c) with
+  | None => false
+  | Some reg => rx1_offset_rule reg off (get_rx1_dr c dr off) || offset_cell_known (c_name c, dr, off)
+  end.
+Definition offset_refuted_check (x : string * Z * Z) : bool :=
+  existsb (fun c => String.eqb (c_name c) (fst (fst x))
+                    && match region_of (c_name c) with
+                       | Some reg => (snd x >? spec_max_rx1_offset reg) && is_ok (get_rx1_dr c (snd (fst x)) (snd x))
+                       | None => false
+                       end) band_configs.
+
 Definition formula_domain : list (Z * Z) :=
   flat_map (fun dr => map (pair dr) (zrange 0 5)) (zrange 0 7).
 
